@@ -105,7 +105,7 @@ func sameShape(t types.Type, e types.Type) types.Type {
 
 func c06Gen(r *rng, g *tyGen, u *universe) c06Case {
 	binops := []string{"Add", "FAdd", "Sub", "FSub", "Mul", "FMul", "UDiv", "SDiv", "FDiv", "URem", "SRem", "FRem", "Shl", "LShr", "AShr", "And", "Or", "Xor"}
-	switch r.intn(22) {
+	switch r.intn(23) {
 	case 0, 1: // binary and bitwise
 		op := binops[r.intn(len(binops))]
 		var e types.Type
@@ -293,6 +293,53 @@ func c06Gen(r *rng, g *tyGen, u *universe) c06Case {
 		t := g.sized(1).build(u)
 		return c06Case{op: "VAArg", shape: "Explicit " + encT(t), params: []types.Type{ptrTo(types.I8, 0)}, want: t,
 			build: func(b *ir.Block, p []*ir.Param) value.Value { return b.NewVAArg(p[0], t) }}
+	case 21: // getelementptr (C07 covers the index forms in depth; here: the instruction among the others)
+		el := types.NewArray(4, types.I32)
+		as := g.pickU(g.spaces)
+		base := ptrTo(el, as)
+		vl := uint64(0)
+		var idx []func(p []*ir.Param) value.Value
+		kinds := r.intn(4)
+		switch kinds {
+		case 0: // scalar constants
+			idx = append(idx, func(p []*ir.Param) value.Value { return constant.NewInt(types.I64, 0) }, func(p []*ir.Param) value.Value { return constant.NewInt(types.I32, 2) })
+		case 1: // a constant splat vector index on a scalar base
+			vl = uint64(2 + r.intn(3))
+			n := vl
+			idx = append(idx, func(p []*ir.Param) value.Value { return constant.NewInt(types.I64, 0) }, func(p []*ir.Param) value.Value {
+				es := make([]constant.Constant, n)
+				for i := range es {
+					es[i] = constant.NewInt(types.I64, 1)
+				}
+				return constant.NewVector(types.NewVector(n, types.I64), es...)
+			})
+		case 2: // a non-constant vector index
+			vl = uint64(2 + r.intn(3))
+			idx = append(idx, func(p []*ir.Param) value.Value { return constant.NewInt(types.I64, 0) }, func(p []*ir.Param) value.Value { return p[1] })
+		default: // non-constant scalar
+			idx = append(idx, func(p []*ir.Param) value.Value { return p[1] })
+		}
+		params := []types.Type{base}
+		if kinds == 2 {
+			params = append(params, vecOf(vl, false, types.I64))
+		} else if kinds == 3 {
+			params = append(params, types.I64)
+		}
+		var want types.Type = ptrTo(types.I32, as)
+		if kinds == 3 {
+			want = ptrTo(el, as)
+		}
+		if vl > 0 {
+			want = vecOf(vl, false, want)
+		}
+		return c06Case{op: "GetElementPtr", shape: "", params: params, want: want,
+			build: func(b *ir.Block, p []*ir.Param) value.Value {
+				var ops []value.Value
+				for _, f := range idx {
+					ops = append(ops, f(p))
+				}
+				return b.NewGetElementPtr(el, p[0], ops...)
+			}}
 	default:
 		t := g.sized(2).build(u)
 		return c06Case{op: "Phi", shape: "Phi " + encT(t) + " " + encT(t) + " " + encT(t), params: []types.Type{t, t}, want: t,
@@ -404,6 +451,7 @@ func runC06(c *config) {
 		cs := c06Gen(r, g, u)
 		c06One(c, u, cs, bodies, i < 3)
 	}
+	c06CallSpellings(c)
 }
 
 func c06One(c *config, u *universe, cs c06Case, bodies string, sample bool) {
@@ -423,7 +471,9 @@ func c06One(c *config, u *universe, cs c06Case, bodies string, sample bool) {
 	// (a) construct
 	var v value.Value
 	irRes := tyOrPanic(func() types.Type { v = cs.build(b, params); return v.Type() })
-	o.Case("ir_type", []string{cs.shape, bodies}, []string{hxOk(irRes)})
+	if cs.shape != "" {
+		o.Case("ir_type", []string{cs.shape, bodies}, []string{hxOk(irRes)})
+	}
 	wantS := "Ok " + cs.want.String()
 	det := map[string]interface{}{"op": cs.op, "shape": cs.shape, "llvm": wantS, "ir": irRes}
 	if irRes != wantS {
@@ -456,7 +506,9 @@ func c06One(c *config, u *universe, cs c06Case, bodies string, sample bool) {
 	default:
 		parseRes = "Panic"
 	}
-	o.Case("asm_type", []string{cs.shape, bodies}, []string{hxOk(parseRes)})
+	if cs.shape != "" {
+		o.Case("asm_type", []string{cs.shape, bodies}, []string{hxOk(parseRes)})
+	}
 	det["parser"], det["src"], det["msg"] = parseRes, src, msg
 	if sample {
 		o.Sample(det)
@@ -466,4 +518,67 @@ func c06One(c *config, u *universe, cs c06Case, bodies string, sample bool) {
 		return
 	}
 	o.Pass("result_type")
+}
+
+// call, invoke and callbr: the callee type may be written as the return type or as the full function
+// type (mandatory for variadic callees); either way the result type is the callee's return type
+func c06CallSpellings(c *config) {
+	o := c.out
+	rets := []string{"void", "i32", "<2 x float>", "{ i8, i32* }"}
+	for _, ret := range rets {
+		for _, variadic := range []bool{false, true} {
+			for _, full := range []bool{false, true} {
+				if variadic && !full {
+					continue
+				}
+				sig := ret + " ()"
+				decl := "declare " + ret + " @g()"
+				if variadic {
+					sig = ret + " (...)"
+					decl = "declare " + ret + " @g(...)"
+				}
+				written := ret
+				if full {
+					written = sig
+				}
+				lhs := "%r = "
+				if ret == "void" {
+					lhs = ""
+				}
+				for _, form := range []string{"call", "invoke", "callbr"} {
+					var body string
+					switch form {
+					case "call":
+						body = fmt.Sprintf("\t%scall %s @g()\n\tret void\n", lhs, written)
+					case "invoke":
+						body = fmt.Sprintf("\t%sinvoke %s @g() to label %%ok unwind label %%lp\nok:\n\tret void\nlp:\n\t%%l = landingpad { i8*, i32 } cleanup\n\tret void\n", lhs, written)
+					default:
+						body = fmt.Sprintf("\t%scallbr %s @g() to label %%ok [label %%other]\nok:\n\tret void\nother:\n\tret void\n", lhs, written)
+					}
+					src := decl + "\ndeclare i32 @pers(...)\ndefine void @f() personality i32 (...)* @pers {\n" + body + "}\n"
+					var got string
+					oc, msg := guard(func() error {
+						m, err := asm.ParseString("c06call.ll", src)
+						if err != nil {
+							return err
+						}
+						b := m.Funcs[2].Blocks[0]
+						if form == "call" {
+							got = b.Insts[0].(value.Value).Type().String()
+						} else {
+							got = b.Term.(value.Value).Type().String()
+						}
+						return nil
+					})
+					o.Stat("call_spellings." + form)
+					o.Nontrivial(src)
+					if oc != ocOk || got != ret {
+						o.Fail("result_type", "", "the parser's type of a "+form+" is not the callee's return type", map[string]string{"src": src, "got": got, "want": ret, "msg": msg})
+					} else {
+						o.Pass("result_type")
+					}
+				}
+			}
+		}
+	}
 }
